@@ -33,6 +33,7 @@ struct model_state
   unsigned gets, tells, seeks;
   unsigned *state; // -> the iostate word inside the istream object (engine build)
   unsigned native_dummy;
+  bool noseek; // forward-only source: rdbuf()->pubseekoff / pubseekpos fail (the default of std::basic_streambuf)
 };
 template <typename Ch>
 inline model_state<Ch> msv{};
@@ -58,7 +59,7 @@ protected:
   {
     off_type const base_off = dir == std::ios_base::beg ? 0 : (dir == std::ios_base::cur ? msv<Ch>.off : msv<Ch>.n);
     off_type const np = base_off + o;
-    if (np < 0 || np > msv<Ch>.n)
+    if (msv<Ch>.noseek || np < 0 || np > msv<Ch>.n)
       return pos_type(off_type(-1));
     msv<Ch>.off = np;
     return pos_type(np);
@@ -133,6 +134,7 @@ void set_text_symbolic_ch(unsigned const n)
   msv<Ch>.n = n;
   msv<Ch>.off = 0;
   msv<Ch>.gets = msv<Ch>.tells = msv<Ch>.seeks = 0;
+  msv<Ch>.noseek = false;
   for (unsigned i = 0; i < max_text; ++i)
   {
     // input names are built at run time (a constant table of strings becomes a relative lookup table in the IR)
@@ -183,6 +185,10 @@ std::streampos model_tellg()
     *m.state |= failbit;
     return std::streampos(std::streamoff(-1));
   }
+  // [istream.unformatted] tellg: "if fail() != false, returns pos_type(-1) ... Otherwise, returns
+  // rdbuf()->pubseekoff(0, cur, in)": a buffer that cannot seek answers pos_type(-1) and NO state bit is set
+  if (m.noseek)
+    return std::streampos(std::streamoff(-1));
   return std::streampos(std::streamoff(m.off));
 }
 // seekg(pos): clears eofbit first (C++11 / N3168); sentry; if !fail() rdbuf()->pubseekpos(pos, in), failure -> failbit
@@ -198,7 +204,7 @@ void model_seekg(std::streampos const p)
     return;
   }
   long const np = static_cast<long>(std::streamoff(p));
-  if (np < 0 || np > m.n)
+  if (m.noseek || np < 0 || np > m.n)
     *m.state |= failbit;
   else
     m.off = np;
@@ -266,6 +272,7 @@ void model_iss_ctor(void *const self, std::basic_string<Ch> &&s)
   m.n = static_cast<long>(s.size());
   m.off = 0;
   m.gets = m.tells = m.seeks = 0;
+  m.noseek = false;
   verif_assert(s.size() <= max_text, "model text capacity");
   for (unsigned i = 0; i < max_text; ++i)
     m.text[i] = i < s.size() ? s[i] : Ch{};
